@@ -21,10 +21,11 @@ import (
 )
 
 type c09wsLane struct {
-	upL    *net.TCPListener
-	upAddr string
-	srv    *http.Server
-	addr   string
+	upL, slowL       *net.TCPListener
+	upAddr, slowAddr string
+	slow             atomic.Bool // the case being played uses the upstream whose kernel holds little
+	srv              *http.Server
+	addr             string
 }
 
 func c09wsNewLane() (*c09wsLane, error) {
@@ -33,9 +34,14 @@ func c09wsNewLane() (*c09wsLane, error) {
 	if l.upL, l.upAddr, err = verifx.ListenFree(); err != nil {
 		return nil, err
 	}
+	if l.slowL, l.slowAddr, err = verifx.ListenFreeRcvbuf(4096); err != nil {
+		l.upL.Close()
+		return nil, err
+	}
 	ln, addr, err := verifx.ListenFree()
 	if err != nil {
 		l.upL.Close()
+		l.slowL.Close()
 		return nil, err
 	}
 	l.addr = addr
@@ -43,7 +49,11 @@ func c09wsNewLane() (*c09wsLane, error) {
 		Config:    config.Proxy{NoRouteStatus: 404},
 		Transport: &http.Transport{},
 		Lookup: func(r *http.Request) *route.Target {
-			return &route.Target{URL: &url.URL{Scheme: "http", Host: l.upAddr, Path: "/"}}
+			host := l.upAddr
+			if l.slow.Load() {
+				host = l.slowAddr
+			}
+			return &route.Target{URL: &url.URL{Scheme: "http", Host: host, Path: "/"}}
 		},
 	}}
 	go l.srv.Serve(ln)
@@ -53,6 +63,7 @@ func c09wsNewLane() (*c09wsLane, error) {
 func (l *c09wsLane) close() {
 	l.srv.Close()
 	l.upL.Close()
+	l.slowL.Close()
 }
 
 func TestVerifC09WS(t *testing.T) {
@@ -60,6 +71,17 @@ func TestVerifC09WS(t *testing.T) {
 	if err != nil {
 		t.Fatal(err)
 	}
+	queueOK, queueMsg := true, ""
+	for i := range cases {
+		if cases[i].Sc.USlow == 1 {
+			queueOK, queueMsg = verifx.TCPKeepsQueueAcrossReset()
+			break
+		}
+	}
+	if !queueOK {
+		verifx.Emit(map[string]any{"kind": "note", "msg": "failing-direction scenarios not played: " + queueMsg})
+	}
+	var errFamily, unsupported int64
 	nl := verifx.EnvInt("VERIF_LANES", 8)
 	jobs := make(chan *verifx.TunnelCase, 64)
 	var wg sync.WaitGroup
@@ -95,7 +117,15 @@ func TestVerifC09WS(t *testing.T) {
 					verifx.Emit(map[string]any{"kind": "error", "msg": fmt.Sprintf("case %d: path %q not playable here", c.ID, c.Path)})
 					continue
 				}
-				env := &verifx.TunnelEnv{ProxyAddr: lane.addr, UpL: lane.upL, WS: true}
+				if c.Sc.USlow == 1 && !queueOK {
+					atomic.AddInt64(&unsupported, 1)
+					continue
+				}
+				env := &verifx.TunnelEnv{ProxyAddr: lane.addr, UpL: lane.upL, WS: true, Before: func(c *verifx.TunnelCase) { lane.slow.Store(c.Sc.USlow == 1) }}
+				if c.Sc.USlow == 1 {
+					env.UpL = lane.slowL
+					atomic.AddInt64(&errFamily, 1)
+				}
 				res := verifx.RunTunnel(env, c, nil)
 				atomic.AddInt64(&ran, 1)
 				clause, msg := verifx.JudgeTunnel(c, res)
@@ -110,7 +140,11 @@ func TestVerifC09WS(t *testing.T) {
 					verifx.Emit(map[string]any{"kind": "skip", "case": c, "msg": msg})
 				default:
 					atomic.AddInt64(&evals, 2)
-					verifx.Fail(c, map[string]any{"path": c.Path, "clause": clause}, "%s", msg)
+					feat := map[string]any{"path": c.Path, "clause": clause}
+					if c.Sc.CMode == "abort" {
+						feat["end"] = res.UEnd()
+					}
+					verifx.Fail(c, feat, "%s", msg)
 				}
 				b, _ := json.Marshal([]any{c.Sc, c.Path, c.Spell})
 				if _, dup := seen.LoadOrStore(verifx.Hash(b), true); !dup && len(res.ExpU) > 0 && len(res.ExpC) > len(verifx.WS101Bytes) {
@@ -133,5 +167,6 @@ func TestVerifC09WS(t *testing.T) {
 	close(jobs)
 	wg.Wait()
 	verifx.Summary(map[string]any{"cases": len(cases), "ran": ran, "evaluations": evals, "distinct_nontrivial": nontrivial,
-		"hangs": hangs, "skipped": skipped, "aborted": aborted, "samples": samples, "ws": ran})
+		"hangs": hangs, "skipped": skipped, "aborted": aborted, "samples": samples, "ws": ran,
+		"failing_direction": errFamily, "unsupported": unsupported})
 }
